@@ -13,7 +13,8 @@ P = {
                  "C11_cache_transparent_if_compatible", "C11_shared_key_changes_decision",
                  "C11_identical_requests_hit",
                  "C11_F2_refuted", "C11_F3_refuted", "C11_F4_history_refuted", "C11_F6_refuted", "C11_F7_refuted",
-                 "C11_cc_cache_transparent", "C11_cc_F4_refuted", "C11_jf_cache_transparent", "C11_F5_refuted"],
+                 "C11_cc_cache_transparent", "C11_cc_F4_refuted", "C11_jf_cache_transparent", "C11_F5_refuted",
+                 "C11_hc_cache_transparent", "C11_F8_refuted", "C11_F9_refuted", "C11_jk_cache_transparent"],
     "streams": [{
         "name": "histories", "pkg": "./internal/rules/mechanisms", "test": "TestVerifC11",
         "overlay": OVERLAY, "eval_module": "Run.Eval_C11", "check_term": "check fx_all",
@@ -23,7 +24,7 @@ P = {
         "name": "keys", "pkg": "./internal/rules/mechanisms", "test": "TestVerifC11Keys",
         "overlay": OVERLAY, "eval_module": "Run.Eval_C11", "check_term": "check2 true false",
         "n_quick": 300, "n_thorough": 6000, "shard": 56,
-        "findings": {4: "C11-F4", 5: "C11-F5"},
+        "findings": {4: "C11-F4", 8: "C11-F8", 9: "C11-F9"},
     }],
     "rule": "histories of 2-6 executions of REAL caching mechanisms (oauth2_introspection and generic authenticators, remote "
             "authorizer, generic contextualizer) created by the real mechanism factory from a generated prototype (0-3 endpoint "
